@@ -10,6 +10,18 @@ from baize.typing import Environ, StartResponse, WSGIApp
 from .responses import FileResponse, RedirectResponse, Response
 
 
+def get_request_path(environ: Environ) -> str:
+    """
+    PEP 3333 hands over the path bytes decoded as Latin-1; file names are
+    looked up by their real (UTF-8) text.
+    """
+    path: str = environ.get("PATH_INFO", "")
+    try:
+        return path.encode("latin-1").decode("utf-8")
+    except UnicodeError:
+        return path
+
+
 class Files(staticfiles.BaseFiles[WSGIApp]):
     """
     Provide the WSGI application to download files in the specified path or
@@ -39,7 +51,7 @@ class Files(staticfiles.BaseFiles[WSGIApp]):
     ) -> Iterable[bytes]:
         if_none_match: str = environ.get("HTTP_IF_NONE_MATCH", "")
         if_modified_since: str = environ.get("HTTP_IF_MODIFIED_SINCE", "")
-        filepath = self.ensure_absolute_path(environ.get("PATH_INFO", ""))
+        filepath = self.ensure_absolute_path(get_request_path(environ))
         stat_result, is_file = self.check_path_is_file(filepath)
         if is_file and stat_result:
             assert filepath is not None  # Just for type check
@@ -69,7 +81,7 @@ class Pages(Files):
     ) -> Iterable[bytes]:
         if_none_match: str = environ.get("HTTP_IF_NONE_MATCH", "")
         if_modified_since: str = environ.get("HTTP_IF_MODIFIED_SINCE", "")
-        filepath = self.ensure_absolute_path(environ.get("PATH_INFO", ""))
+        filepath = self.ensure_absolute_path(get_request_path(environ))
         stat_result, is_file = self.check_path_is_file(filepath)
         if (
             stat_result is None  # filepath is not exist
